@@ -355,6 +355,11 @@ namespace detail {
             {
                 return count_inits(s.substr(endl_after_pos), occurrences + 1);
             }
+            else if (star_pos != std::string::npos)
+            {
+                // a '-> [*]' (terminate) line: keep looking for the initial states of further regions
+                return count_inits(s.substr(star_pos + 3), occurrences);
+            }
             return occurrences;
         };
         constexpr int count_actions(std::string_view s)
